@@ -114,11 +114,14 @@ def evaluate(job):
     out = []
     with fordrun.tempdir("verif-c11-") as d:
         fordrun.write_files(d, files)
-        ok, log, err = site.run_inproc(d, {"page_dir": "./pages", "display": ["public", "private", "protected"], "proc_internals": True, "search": False}, body=body)
+        # half of the worlds are written to an output directory whose name has a dot in it (doc.v2)
+        outname = "doc.v2" if (w["A"] != w["C"]) else "doc"
+        ok, log, err = site.run_inproc(d, {"page_dir": "./pages", "display": ["public", "private", "protected"], "proc_internals": True, "search": False,
+                                            "output_dir": "./" + outname}, body=body)
         if not ok:
             return [{"id": None, "bad": f"FORD failed: {type(err).__name__}: {err}"}]
         project = site.CAPTURED["project"]
-        outdir = os.path.join(d, "doc")
+        outdir = os.path.join(d, outname)
         byid = {c["id"]: c for c in cases}
         seen = {c["id"]: 0 for c in cases}
         for rel in site.html_files(outdir):
